@@ -2,27 +2,27 @@ import PhysisModel.Base.ParserA
 /-!
 # Two loop combinators for the cursor monad (C18 part `pbc`)
 
-* `P.forEach l f`   — `for x in l { f(x)? }` over an already parsed list;
+* `P.each l f`   — `for x in l { f(x)? }` over an already parsed list;
 * `P.whileP c body` — `while c(cursor.position()) { body? }` with fuel `remaining + 1`: a body that
   succeeds without consuming input would make the Rust loop spin for ever, which the model reports
   as the fault `fuel`.
 
-The lemmas (`PGood.forEach`, `PGood.whileP`) are in `Base/ParserAPbcLemmas.lean`.
+The lemmas (`PGood.each`, `PGood.whileP`) are in `Base/ParserAPbcLemmas.lean`.
 -/
 namespace Physis.A
 namespace P
 variable {α : Type}
 
-def forGo (f : α → P Unit) (w : Bytes) : List α → St → Nat → Res (Unit × St)
+def eachGo (f : α → P Unit) (w : Bytes) : List α → St → Nat → Res (Unit × St)
   | [], s, pk => ⟨.ok ((), s), pk⟩
   | a :: l, s, pk =>
     match f a w s with
-    | ⟨.ok (_, s'), k⟩ => forGo f w l s' (max pk k)
+    | ⟨.ok (_, s'), k⟩ => eachGo f w l s' (max pk k)
     | ⟨.fail e, k⟩ => ⟨.fail e, max pk k⟩
     | ⟨.fault x, k⟩ => ⟨.fault x, max pk k⟩
 
 /-- `for x in l { f(x)? }` -/
-@[inline] def forEach (l : List α) (f : α → P Unit) : P Unit := fun w s => forGo f w l s 0
+@[inline] def each (l : List α) (f : α → P Unit) : P Unit := fun w s => eachGo f w l s 0
 
 def whileGo (c : Nat → Bool) (body : P Unit) (w : Bytes) : Nat → St → Nat → Res (Unit × St)
   | 0, _, pk => ⟨.fault .fuel, pk⟩
